@@ -193,6 +193,8 @@ pub struct CheckedFringe<F: Fringe> where F::State: Clone {
     pub inner: F,
     pub dedup: bool,
     pub reference: Vec<SubProblem<F::State>>,
+    /// per reference entry: the paths of coalesced pushes whose value TIES with the survivor's (C11 lets the survivor keep either)
+    alt_paths: Vec<Vec<Vec<ddo::Decision>>>,
     pub stats: FringeStats,
     pub errors: Vec<String>,
     /// max number of pops before the run is declared non-terminating (C01/C15 step bound); 0 = unbounded
@@ -203,7 +205,7 @@ pub struct CheckedFringe<F: Fringe> where F::State: Clone {
     pub key_of: Option<fn(&F::State) -> u64>,
 }
 impl<F: Fringe> CheckedFringe<F> where F::State: Clone + Eq + Debug {
-    pub fn new(inner: F, dedup: bool) -> Self { CheckedFringe { inner, dedup, reference: vec![], stats: Default::default(), errors: vec![], pop_bound: 0, popped: vec![], repushed: vec![], key_of: None } }
+    pub fn new(inner: F, dedup: bool) -> Self { CheckedFringe { inner, dedup, reference: vec![], alt_paths: vec![], stats: Default::default(), errors: vec![], pop_bound: 0, popped: vec![], repushed: vec![], key_of: None } }
     fn err(&mut self, e: String) { if self.errors.len() < 5 { self.errors.push(e); } }
     fn check_len(&mut self, op: &str) {
         if self.inner.len() != self.reference.len() {
@@ -228,10 +230,11 @@ impl<F: Fringe> Fringe for CheckedFringe<F> where F::State: Clone + Eq + Debug {
                 let old = &mut self.reference[i];
                 if old.ub != node.ub { self.stats.coalesced_diff_ub += 1; }
                 let ub = old.ub.max(node.ub);
-                if node.value > old.value { *old = node.clone(); }
+                if node.value > old.value { *old = node.clone(); self.alt_paths[i].clear(); }
+                else if node.value == old.value && node.path != old.path { self.alt_paths[i].push(node.path.clone()); }
                 old.ub = ub;
             }
-            None => self.reference.push(node.clone()),
+            None => { self.reference.push(node.clone()); self.alt_paths.push(vec![]); }
         }
         self.inner.push(node);
         self.stats.max_len = self.stats.max_len.max(self.reference.len());
@@ -248,18 +251,19 @@ impl<F: Fringe> Fringe for CheckedFringe<F> where F::State: Clone + Eq + Debug {
                 if self.popped.len() < 4096 { self.popped.push((n.state.as_ref().clone(), n.depth, n.path.clone())); }
                 let best = self.reference.iter().map(|x| (x.ub, x.value)).max();
                 // the popped item must exist in the reference. For a dedup fringe, value/path/ub are dictated by the coalescing rule.
-                let pos = self.reference.iter().position(|x| same_sub(x, n) && x.value == n.value && x.ub == n.ub && x.path == n.path);
+                let alts = &self.alt_paths;
+                let pos = self.reference.iter().enumerate().position(|(i, x)| same_sub(x, n) && x.value == n.value && x.ub == n.ub && (x.path == n.path || alts[i].contains(&n.path)));
                 match pos {
                     Some(i) => {
                         if Some((n.ub, n.value)) != best { let e = format!("pop() returned (ub={}, value={}) but the reference maximum is {:?}", n.ub, n.value, best); self.err(e); }
-                        self.reference.swap_remove(i);
+                        self.reference.swap_remove(i); self.alt_paths.swap_remove(i);
                     }
                     None => {
                         let close: Vec<String> = self.reference.iter().filter(|x| x.state == n.state).map(|x| format!("(depth={}, value={}, ub={}, path={:?})", x.depth, x.value, x.ub, x.path)).collect();
                         let e = format!("pop() returned a sub-problem that the reference does not hold: state={:?} depth={} value={} ub={} path={:?}; reference entries with that state: {:?}", n.state, n.depth, n.value, n.ub, n.path, close);
                         self.err(e);
                         // resynchronise as well as possible so that one defect is reported once
-                        if let Some(i) = self.reference.iter().position(|x| x.state == n.state) { self.reference.swap_remove(i); }
+                        if let Some(i) = self.reference.iter().position(|x| x.state == n.state) { self.reference.swap_remove(i); self.alt_paths.swap_remove(i); }
                     }
                 }
             }
@@ -267,7 +271,7 @@ impl<F: Fringe> Fringe for CheckedFringe<F> where F::State: Clone + Eq + Debug {
         self.check_len("pop");
         got
     }
-    fn clear(&mut self) { if sched::trace_on() { eprintln!("[fringe] {:?} clear", sched::current_tid()); } self.stats.clears += 1; self.reference.clear(); self.inner.clear(); self.check_len("clear"); }
+    fn clear(&mut self) { if sched::trace_on() { eprintln!("[fringe] {:?} clear", sched::current_tid()); } self.stats.clears += 1; self.reference.clear(); self.alt_paths.clear(); self.inner.clear(); self.check_len("clear"); }
     fn len(&self) -> usize { self.inner.len() }
 }
 
